@@ -129,10 +129,12 @@ fn walk(e: &Expr, ev: &varpulis_runtime::event::Event, tags: &mut BTreeSet<&'sta
 const KNOWN_TAGS: [&str; 5] = ["eq-int-vs-float", "eq-float-epsilon", "order-on-strings", "not-of-undefined", "or-with-undefined-operand"];
 
 /// (model predicts a divergence, tags)
-fn predict(filter: &Expr, ev: &varpulis_runtime::event::Event) -> (bool, BTreeSet<&'static str>) {
+/// `step_filter`: what the sequence step gets (the parser's constant folder does not visit stream
+/// sources, so it is the unfolded expression); `where_filter`: what `.where` gets (folded).
+fn predict(step_filter: &Expr, where_filter: &Expr, ev: &varpulis_runtime::event::Event) -> (bool, BTreeSet<&'static str>) {
     let mut tags = BTreeSet::new();
-    let s = walk(filter, ev, &mut tags);
-    let v = eval(filter, ev) == Some(Value::Bool(true));
+    let s = walk(step_filter, ev, &mut tags);
+    let v = eval(where_filter, ev) == Some(Value::Bool(true));
     (s != v, tags)
 }
 
@@ -165,13 +167,17 @@ fn run(c: &Case) -> Outcome {
         Ok(e) => e,
         Err(e) => return Outcome::discard(format!("program rejected: {} :: {}", e.chars().take(80).collect::<String>(), text)),
     };
-    let parsed = fold(&c.filter.to_ast());
+    let unfolded = c.filter.to_ast();
+    let parsed = fold(&unfolded);
+    if std::env::var("C09_DEBUG").is_ok() {
+        eprintln!("{:#?}", varpulis_parser::parse(&src).map(|p| p.statements.into_iter().map(|s| s.node).collect::<Vec<_>>()));
+    }
     // exclusion by construction of the known classes
     let mut kept: Vec<(usize, Ev, BTreeSet<&'static str>, bool)> = vec![];
     let mut excluded: BTreeSet<&'static str> = BTreeSet::new();
     for (k, f) in c.events.iter().enumerate() {
         let ev = event_of(k, f);
-        let (div, tags) = predict(&parsed, &ev.to_event());
+        let (div, tags) = predict(&unfolded, &parsed, &ev.to_event());
         let all_known = !tags.is_empty() && tags.iter().all(|t| KNOWN_TAGS.contains(t));
         if !c.raw && div && all_known {
             excluded.extend(tags.iter());
@@ -242,10 +248,13 @@ fn field() -> impl Strategy<Value = E> {
 
 fn value_pool() -> impl Strategy<Value = V> {
     prop_oneof![
-        4 => proptest::sample::select(vec![0i64, 1, 2, 5, -1, (1 << 53) + 1]).prop_map(V::Int),
-        4 => proptest::sample::select(vec![0.0f64, 1.0, 2.0, 5.0, 0.5, 2.5, -1.0, 0.3, 0.30000000000000004, 1e-17, 9007199254740992.0]).prop_map(V::f),
-        2 => proptest::sample::select(vec!["a", "b", "", "5"]).prop_map(V::s),
-        1 => any::<bool>().prop_map(V::Bool),
+        12 => proptest::sample::select(vec![0i64, 1, 2, 5]).prop_map(V::Int),
+        2 => proptest::sample::select(vec![-1i64, (1 << 53) + 1]).prop_map(V::Int),
+        6 => proptest::sample::select(vec![1.0f64, 2.0, 0.5, 2.5]).prop_map(V::f),
+        2 => proptest::sample::select(vec![0.0f64, -1.0, 0.3, 0.30000000000000004, 1e-17, 9007199254740992.0]).prop_map(V::f),
+        4 => proptest::sample::select(vec!["a", "b"]).prop_map(V::s),
+        1 => proptest::sample::select(vec!["", "5"]).prop_map(V::s),
+        2 => any::<bool>().prop_map(V::Bool),
     ]
 }
 
@@ -263,23 +272,31 @@ fn atom() -> impl Strategy<Value = E> {
         2 => (cmp_op(), literal(), field()).prop_map(|(op, l, f)| E::bin(op, l, f)),
         3 => (cmp_op(), field(), field()).prop_map(|(op, a, b)| E::bin(op, a, b)),
         1 => field(),
-        1 => (cmp_op(), field(), literal(), literal()).prop_map(|(op, f, a, b)| E::bin(op, E::bin(Op::Add, f, a), b)),
+        // (addend never 0: `f + 0` is rewritten to `f` only on the .where side, which is C10's known finding, not C09's subject)
+        1 => (cmp_op(), field(), 1i64..3, literal()).prop_map(|(op, f, a, b)| E::bin(op, E::bin(Op::Add, f, E::Int(a)), b)),
         1 => (any::<bool>(), field(), proptest::collection::vec(literal(), 1..3)).prop_map(|(neg, f, items)| E::bin(if neg { Op::NotIn } else { Op::In }, f, E::Arr(items))),
     ]
 }
 
+fn combine(inner: BoxedStrategy<E>) -> BoxedStrategy<E> {
+    prop_oneof![
+        2 => (inner.clone(), inner.clone()).prop_map(|(a, b)| E::bin(Op::And, a, b)),
+        2 => (inner.clone(), inner.clone()).prop_map(|(a, b)| E::bin(Op::Or, a, b)),
+        2 => inner.prop_map(|a| E::Not(Box::new(a))),
+    ]
+    .boxed()
+}
+
 fn filter() -> impl Strategy<Value = E> {
-    atom().prop_recursive(3, 12, 2, |inner| {
-        prop_oneof![
-            2 => (inner.clone(), inner.clone()).prop_map(|(a, b)| E::bin(Op::And, a, b)),
-            2 => (inner.clone(), inner.clone()).prop_map(|(a, b)| E::bin(Op::Or, a, b)),
-            2 => inner.prop_map(|a| E::Not(Box::new(a))),
-        ]
-    })
+    let d0 = atom().boxed();
+    let d1 = prop_oneof![1 => d0.clone(), 2 => combine(d0.clone())].boxed();
+    let d2 = prop_oneof![1 => d1.clone(), 2 => combine(d1.clone())].boxed();
+    let d3 = combine(d2.clone());
+    prop_oneof![3 => d0, 4 => d1, 3 => d2, 1 => d3]
 }
 
 fn event_fields() -> impl Strategy<Value = Vec<(String, V)>> {
-    (proptest::option::weighted(0.85, value_pool()), proptest::option::weighted(0.8, value_pool()), proptest::option::weighted(0.7, value_pool())).prop_map(|(a, b, c)| {
+    (proptest::option::weighted(0.9, value_pool()), proptest::option::weighted(0.85, value_pool()), proptest::option::weighted(0.8, value_pool())).prop_map(|(a, b, c)| {
         let mut v = vec![];
         for (n, x) in [("f1", a), ("f2", b), ("f3", c)] {
             if let Some(x) = x {
